@@ -1,10 +1,14 @@
 #!/bin/bash
-# usage: try_mutant.sh <patch> <pid> [tier]  -- apply patch to /repo, run the check, undo
+# usage: try_mutant.sh <patch> <pid> [tier]  -- apply patch to /repo, run the check, undo.
+# The evidence file of the property is saved and restored: committed evidence must come
+# from the unchanged tree only.
 P="$1"; PID="$2"; TIER="${3:-quick}"
 cd /repo || exit 9
 if ! git apply --check "$P" 2>/dev/null; then echo "PATCH DOES NOT APPLY: $P"; exit 9; fi
+cp /verif/evidence/$PID.json /tmp/evidence_$PID.bak 2>/dev/null
 git apply "$P"
 cd /verif && ./check "$PID" --tier "$TIER" 2>&1 | grep -v "WARNING conda" | tail -${LINES_OUT:-8}
 RC=${PIPESTATUS[0]}
-git -C /repo checkout -- . 
+git -C /repo checkout -- .
+[ -f /tmp/evidence_$PID.bak ] && mv /tmp/evidence_$PID.bak /verif/evidence/$PID.json
 echo "exit=$RC"
